@@ -205,7 +205,7 @@ theorem db_key_confined (cfg : Cfg) (s : State) (r : Request)
 /-- the hypotheses of `db_key_confined` are met: the key holder of `a` asks for `info` -/
 example :
     let cfg : Cfg := ⟨some "adm", "prim", 8⟩
-    let s : State := ⟨[("a", "ka"), ("b", "kb")], ["prim", "a", "b"], ["a", "b"], ["prim", "a", "b"], false, ["a", "b"]⟩
+    let s : State := ⟨[("a", "ka"), ("b", "kb")], ["prim", "a", "b"], ["a", "b"], ["prim", "a", "b"], false, ["a", "b"], [("a", "ka"), ("b", "kb")], [("a", "ka"), ("b", "kb")], ["a", "b"], none⟩
     let r : Request := ⟨.post, .db "a", some (bearerPrefixBytes ++ [107, 97]), some .json, none, .rpc "info" ⟨none, none, none⟩, "g"⟩
     (handle cfg s r).2 = ⟨.json, .root (.info none ["a"]), some .database⟩ := by decide
 
@@ -352,8 +352,8 @@ theorem rejected_of_wrong_token (cfg : Cfg) (s : State) (r : Request) (n a : Str
 
 example :
     let cfg : Cfg := ⟨some "adm", "prim", 8⟩
-    let s₁ : State := ⟨[("a", "ka"), ("b", "kb")], ["prim", "a", "b"], ["a", "b"], ["prim", "a", "b"], false, ["a", "b"]⟩
-    let s₂ : State := ⟨[], ["prim"], [], ["prim"], true, []⟩
+    let s₁ : State := ⟨[("a", "ka"), ("b", "kb")], ["prim", "a", "b"], ["a", "b"], ["prim", "a", "b"], false, ["a", "b"], [("a", "ka"), ("b", "kb")], [("a", "ka"), ("b", "kb")], ["a", "b"], none⟩
+    let s₂ : State := ⟨[], ["prim"], [], ["prim"], true, [], [], [], [], none⟩
     let tok := some (bearerPrefixBytes ++ [107, 97])   -- "Bearer ka"
     -- key of `a` on `b` (exists, bound to another key)  vs  no token on a database that does not exist
     (handle cfg s₁ ⟨.post, .db "b", tok, some .cbor, none, .rpc "doc.get" ⟨none, none, none⟩, "g"⟩).2 =
@@ -499,13 +499,16 @@ theorem revocation_immediate (cfg : Cfg) (s s' : State) (n a k : String) (hadm :
         unfold authorizeState
         rw [hadm]
         exact authorize_rejects a _ _ _ (by simp [hk]) (.inl hl)
-      · split at h
-        · cases h
-        · cases h
-          refine ⟨?_, fun x hx => lookup_eraseKey_ne _ _ _ hx⟩
+      · dsimp only at h
+        split at h
+        · rename_i hok
+          cases h
+          have hb := ((storeApiKey_fields s n none).1 hok).1
+          refine ⟨?_, fun x hx => by rw [hb]; exact lookup_eraseKey_ne _ _ _ hx⟩
           unfold authorizeState
-          rw [hadm]
+          rw [hadm, hb]
           exact authorize_rejects a _ _ _ (by simp [hk]) (.inl (lookup_eraseKey_self _ _))
+        · cases h
   · intro k₂ fresh res h hne
     unfold setDbApiKey at h
     simp only [Option.getD_some] at h
@@ -515,16 +518,18 @@ theorem revocation_immediate (cfg : Cfg) (s s' : State) (n a k : String) (hadm :
       split at h
       · cases h
       · split at h
-        · cases h
-        · cases h
-          refine ⟨?_, ?_, fun x hx => lookup_setKey_ne _ _ _ _ hx⟩
+        · rename_i hok
+          cases h
+          have hb := ((storeApiKey_fields s n (some k₂)).1 hok).1
+          simp only [storeTarget] at hb
+          refine ⟨?_, ?_, fun x hx => by rw [hb]; exact lookup_setKey_ne _ _ _ _ hx⟩
           · unfold authorizeState
-            rw [hadm]
+            rw [hadm, hb]
             simp only [lookup_setKey_self]
             exact authorize_rejects a _ _ _ (by simp [hk])
               (.inr (.inr (by simp only [ne_eq, Option.some.injEq]; exact fun e => hne e.symm)))
           · unfold authorizeState
-            rw [hadm]
+            rw [hadm, hb]
             simp only [lookup_setKey_self]
             by_cases e : k₂ = a
             · subst e
@@ -532,6 +537,7 @@ theorem revocation_immediate (cfg : Cfg) (s s' : State) (n a k : String) (hadm :
               simp [authorize, this]
             · rw [authorize_database_of a n k₂ e]
               simp
+        · cases h
 
 /-- `revocation_immediate` through the HTTP pipeline: if *some* request was answered with the result
 of `db.remove_api_key` for database `n`, then the next request on `POST /{n}` that does not carry
@@ -575,17 +581,109 @@ theorem persistence_failure_keeps_bindings (cfg : Cfg) (s : State) (r : Request)
   · rfl
   · rfl
 
+def exCfg : Cfg := ⟨some "adm", "prim", 8⟩
+def exAdmin (m n : String) (k : Option String) : Event :=
+  .request ⟨.post, .root, some (bearerPrefixBytes ++ [97, 100, 109]), some .cbor, none, .rpc m ⟨some n, k, none⟩, "gen"⟩
+
+/-! ## Acknowledged ⇒ durable (storage faults, retries, crashes) -/
+
+/-- **acknowledged_implies_durable.** Whatever the state — a read-only primary, an armed fault, an
+engine copy of the extensions left over from an earlier failed PUT — if a request is answered with
+the result of `db.set_api_key`, or of `db.remove_api_key` with `true`, then the durable key map
+equals the enforced one at that moment. (A 5xx answer acknowledges nothing.) -/
+theorem acknowledged_implies_durable (cfg : Cfg) (s : State) (r : Request) (res : RootResult)
+    (hrep : (handle cfg s r).2.reply = .root res)
+    (hres : (∃ n g, res = .keySet n g) ∨ res = .removed true) :
+    (handle cfg s r).1.durableBound = (handle cfg s r).1.bound := by
+  obtain ⟨verb, target, auth, ct, accept, body, fresh⟩ := r
+  unfold handle at hrep ⊢
+  cases target <;> cases verb <;> simp only at hrep ⊢ <;> try (cases hrep; done)
+  · obtain ⟨m, ps, hd, _, hh⟩ := rpc_root_result _ _ _ _ hrep
+    exact rootHandler_ack _ _ _ _ _ _ _ hh hres
+  · rename_i n
+    exfalso
+    cases ha : authorizeState cfg s (.database n) (bearerToken auth) with
+    | error e => rw [rpc_rejected cfg s _ ⟨.post, .db n, auth, ct, accept, body, fresh⟩ e ha] at hrep; cases hrep
+    | ok p =>
+      rcases rpc_database_reply cfg s n ⟨.post, .db n, auth, ct, accept, body, fresh⟩ p ha with h1 | h1 | ⟨_, _, _, h1⟩ | ⟨v, e, ps, h1⟩
+      · rw [h1] at hrep; cases hrep
+      · rw [h1] at hrep; cases hrep
+      · rw [h1] at hrep; cases hrep
+      · rw [h1] at hrep
+        unfold dispatchDb at hrep
+        split at hrep
+        · cases hrep
+        · split at hrep
+          · cases hrep
+          · split at hrep
+            · unfold scopedInfo at hrep
+              split at hrep <;> cases hrep <;> rcases hres with ⟨_, _, e'⟩ | e' <;> cases e'
+            · cases hrep
+
+/-- **acknowledged_survives_crash.** … so a crash right after the answer — and, because only an
+admin request can change the durable map again (`root_admin_only`), at any later point before the
+next management request — restarts into exactly the acknowledged bindings: a revoked or rotated-away
+key is still rejected, a newly set key works. -/
+theorem acknowledged_survives_crash (cfg : Cfg) (s : State) (r : Request) (res : RootResult)
+    (hrep : (handle cfg s r).2.reply = .root res)
+    (hres : (∃ n g, res = .keySet n g) ∨ res = .removed true) :
+    (crash cfg (handle cfg s r).1).bound = (handle cfg s r).1.bound :=
+  acknowledged_implies_durable cfg s r res hrep hres
+
+/-- **retry_persists.** There is no "unchanged, skip" path: with the primary writable and no fault
+armed, persisting the key map always performs the PUT — whatever the engine's copy or the durable
+map already hold (for instance the very value, left by a failed first attempt) — so an identical
+retry of a failed request makes its change durable. -/
+theorem retry_persists (s : State) (hro : s.primaryRO = false) (hf : s.faultIn = none) :
+    (persistKeys s).2 = true ∧ (persistKeys s).1.durableBound = s.bound ∧ (persistKeys s).1.bound = s.bound :=
+  persistKeys_no_fault s hro hf
+
+def exFault (k : Nat) : Event := .fault k
+def exKeyOf (history : List Event) (n : String) : Option String :=
+  lookup (run exCfg (init exCfg) history).bound n
+
+/-- the class scenario on the model: rotate `a` from `ka` to `kb` with the first PUT failing (500:
+the old key stays enforced), retry (200), crash — the rotated-away key is gone, the new one bound -/
+example :
+    exKeyOf [exAdmin "db.create" "a" (some "ka"), exFault 0, exAdmin "db.set_api_key" "a" (some "kb")] "a" = some "ka" ∧
+    exKeyOf [exAdmin "db.create" "a" (some "ka"), exFault 0, exAdmin "db.set_api_key" "a" (some "kb"),
+             exAdmin "db.set_api_key" "a" (some "kb"), .crash] "a" = some "kb" ∧
+    exKeyOf [exAdmin "db.create" "a" (some "ka"), exFault 0, exAdmin "db.remove_api_key" "a" none,
+             exAdmin "db.remove_api_key" "a" none, .crash] "a" = none := by decide +kernel
+
+/-- The full statement one would like — *every* 2xx answer of a key-management request, including
+`db.remove_api_key` answering `false` ("no key was bound") — is **false of the code**:
+`remove_db_api_key` answers `false` from the in-memory map without persisting, while the engine's
+copy of the extension may still hold the value of an earlier FAILED `db.set_api_key`, which any
+later successful PUT of the primary's metadata (here: registering another database) makes durable. -/
+def acknowledged_implies_durable_full : Prop :=
+  ∀ (cfg : Cfg) (history : List Event) (r : Request) (b : Bool),
+    (handle cfg (run cfg (init cfg) history) r).2.reply = .root (.removed b) →
+    (handle cfg (run cfg (init cfg) history) r).1.durableBound = (handle cfg (run cfg (init cfg) history) r).1.bound
+
+/-- `db.create a`; fault; `db.set_api_key a kx` → 500; `db.create c` → 200 (its registry PUT carries the
+engine's copy `{a ↦ kx}`); `db.remove_api_key a` → 200 `false`; crash: `kx` is accepted on `a`. -/
+theorem acknowledged_noop_not_durable_counterexample : ¬ acknowledged_implies_durable_full := by
+  intro h
+  have := h exCfg [exAdmin "db.create" "a" none, exFault 0, exAdmin "db.set_api_key" "a" (some "kx"),
+      exAdmin "db.create" "c" none]
+    ⟨.post, .root, some (bearerPrefixBytes ++ [97, 100, 109]), some .cbor, none,
+      .rpc "db.remove_api_key" ⟨some "a", none, none⟩, "gen"⟩ false (by decide +kernel)
+  revert this
+  decide +kernel
+
 /-! ## Invariants over all histories -/
 
 /-- **no_admin_implies_no_bound.** After *every* history of requests (by anybody, to any route,
-with any method, parameters and token) and clean restarts, starting from a fresh server:
+with any method, parameters and token), clean restarts, crashes and armed storage faults, starting
+from a fresh server:
 an instance without an admin key holds no per-database binding at all (so rule 1 — "everybody is
 Admin" — can never disagree with a binding), and the primary database, which stores the registry
 and the key digests, is never delegated to a per-database key. -/
 theorem no_admin_implies_no_bound (cfg : Cfg) (history : List Event) :
     (cfg.admin = none → (run cfg (init cfg) history).bound = []) ∧
     lookup (run cfg (init cfg) history).bound cfg.primary = none :=
-  run_Inv cfg (init cfg) history (init_Inv cfg)
+  (run_Inv cfg (init cfg) history (init_Inv cfg)).1
 
 /-- Consequence: in every reachable state no request is ever authorised as a per-database
 principal *on the primary database* — whatever token it carries. -/
@@ -613,17 +711,14 @@ theorem db_key_confined_reachable (cfg : Cfg) (history : List Event) (r : Reques
   rw [e, hwf] at h4
   cases h4
 
-def exCfg : Cfg := ⟨some "adm", "prim", 8⟩
-def exAdmin (m n : String) (k : Option String) : Event :=
-  .request ⟨.post, .root, some (bearerPrefixBytes ++ [97, 100, 109]), some .cbor, none, .rpc m ⟨some n, k, none⟩, "gen"⟩
-
 /-- a non-trivial reachable state: two tenants created with keys, one rotated to a generated key,
 one closed (its binding is kept), a restart, and a refused attempt to bind the primary -/
 example :
     run exCfg (init exCfg) [exAdmin "db.create" "a" (some "ka"), exAdmin "db.create" "b" (some "kb"),
         exAdmin "db.set_api_key" "a" none, exAdmin "db.close" "b" none, .restart,
         exAdmin "db.set_api_key" "prim" (some "kp")] =
-      ⟨[("a", "gen"), ("b", "kb")], ["prim", "a"], ["a"], ["b", "a", "prim"], false, ["a"]⟩ := by decide +kernel
+      ⟨[("a", "gen"), ("b", "kb")], ["prim", "a"], ["a"], ["b", "a", "prim"], false, ["a"],
+       [("a", "gen"), ("b", "kb")], [("a", "gen"), ("b", "kb")], ["a"], none⟩ := by decide +kernel
 
 /-! ## Encodings -/
 
